@@ -18,7 +18,7 @@ Proof.
 Qed.
 
 Ltac crush_step :=
-  unfold fixed, upstream, step, export, summary, cost, get_cost, cost_of, set_spec, flip, set_opt, set_train, ov, train_step, forward, resample, sample, set_th_rng,
+  unfold fixed, upstream, step, export, summary, cost, get_cost, cost_of, set_spec, flip, set_opt, set_train, set_mode, write, backward, ov, train_step, forward, resample, sample, set_th_rng,
          bn_flag, drop_flag, samp_flag, veq, visible;
   cbn [pv bv tr_wrap tr_seed tr_leaf tr_sub th opt trn rng spec polluted fst snd restore_state fork_rng summary_pure keep_options];
   repeat match goal with
@@ -99,6 +99,15 @@ Qed.
 Theorem erase_observers c ops s :
   trace_mut fixed c s ops = trace fixed c s (erase ops) /\ veq (run fixed c s ops) (run fixed c s (erase ops)).
 Proof. apply erase_gen, veq_refl. Qed.
+
+(* an observer called between backward() and optimizer.step(), followed by eval() and an inference: instance of the erasure *)
+Lemma between_backward_and_step c s o : is_observer o = true ->
+  trace_mut fixed c s [OBackward; o; OStep; OSetMode false; OForward] = trace fixed c s [OBackward; OStep; OSetMode false; OForward]
+  /\ veq (run fixed c s [OBackward; o; OStep; OSetMode false; OForward]) (run fixed c s [OBackward; OStep; OSetMode false; OForward]).
+Proof.
+  intro H. pose proof (erase_observers c [OBackward; o; OStep; OSetMode false; OForward] s) as E.
+  unfold erase in E. cbn [filter is_observer negb] in E. rewrite H in E. cbn [negb] in E. exact E.
+Qed.
 
 (* switching the specification and switching it back (observers in between) *)
 Theorem set_spec_roundtrip c s sp ops : forallb is_observer ops = true ->
